@@ -527,6 +527,13 @@ where
     pub fn stop(&self) {
         self.close();
 
+        // wait until the reducer has drained the queue while the pool is still installed,
+        // so that the effects of the remaining actions are scheduled and executed
+        let pool_draining = self.pool.lock().unwrap().clone();
+        if let Some(pool) = pool_draining {
+            pool.join_timeout(Duration::from_secs(3));
+        }
+
         // Shutdown the thread pool with timeout
         // lock pool
         let pool_took = self.pool.lock().unwrap().take();
